@@ -35,8 +35,8 @@ def bounds(tier):
 
 def mesh3(nb0=3):
     return {"ndims": 3, "domain": [4, 4, 2],
-            "levels": [[[[0, 0, 0], [1, 3, 1]], [[2, 0, 0], [3, 1, 1]], [[2, 2, 0], [3, 3, 1]]],
-                       [[[2, 2, 0], [5, 5, 3]], [[0, 6, 0], [1, 7, 1]], [[6, 0, 2], [7, 1, 3]], [[0, 0, 0], [1, 1, 1]]]],
+            "levels": [[[[2, 0, 0], [3, 1, 1]], [[0, 0, 0], [1, 3, 1]], [[2, 2, 0], [3, 3, 1]]],      # (small boxes before large ones)
+                       [[[0, 6, 0], [1, 7, 1]], [[2, 2, 0], [5, 5, 3]], [[6, 0, 2], [7, 1, 3]], [[0, 0, 0], [1, 1, 1]]]],
             "fields": ["temp", "density", "Z"], "payload": ["signed", "signed", "boxcancel"],
             "layout": [{"files": [[1], [0], [2]], "nums": [2, 0, 1]}, {"files": [[3, 0], [1], [2]], "nums": [0, 1, 2]}]}
 
